@@ -1,6 +1,7 @@
 import Cx.Proofs.Nfa
 import Cx.Proofs.Pike
 import Cx.Proofs.Dfa
+import Cx.Proofs.RevSuffixDfa
 /-
   C14 — each matching engine agrees with the reference on everything it accepts.
 
@@ -166,5 +167,50 @@ def exN : NFA := { states := #[.split 1 2, .byteRange 97 97 5, .byteRange 97 97 
                    startAnchored := 0, startUnanchored := 0 }
 example : btSearchAt exN #[97, 98] 0 = some (0, 1) := by decide
 example : btIsMatch exN #[98, 97, 98] = true := by decide
+
+/-! ### the lazy DFA in reverse mode (`SearchReverse`, `SearchReverseLimited`, `IsMatchReverse`, fallback `reverseWalk`)
+
+Model `Cx.Model.DfaRev` (a DFA configured with `BreakAtMatch = false`, as every reverse DFA is); the statements are those of
+`Cx.C02` (where they serve the reverse strategies), restated here for the engine property. -/
+
+/-- every cache capacity, clear limit, determinisation limit and history: the cached reverse searches answer what the uncached
+    ones answer (for `SearchReverseLimited`: or -2 where the fallback already knows the start `minStart + 1`, which callers
+    treat as "ask another engine") and keep the cache invariant -/
+theorem C14_dfa_reverse_memo_invisible {R : NFA} {cfg : Dfa.Config} {h : Bytes} (hC : Dfa.ClassSound R cfg)
+    (hb : Dfa.BytesOK h) {c : Dfa.Cache} (hI : Dfa.Inv R cfg c) (start e minStart : Nat) :
+    (Dfa.searchReverseC R cfg c h start e).1 = Dfa.searchReverseU R cfg h start e ∧
+    (Dfa.isMatchReverseC R cfg c h start e).1 = Dfa.isMatchReverseU R cfg h start e ∧
+    ((Dfa.searchReverseLimitedC R cfg c h start e minStart).1 = Dfa.searchReverseLimitedU R cfg h start e minStart ∨
+     ((Dfa.searchReverseLimitedC R cfg c h start e minStart).1 = .cutOff ∧ start < minStart ∧
+        Dfa.searchReverseLimitedU R cfg h start e minStart = .found (minStart + 1))) ∧
+    Dfa.Inv R cfg (Dfa.searchReverseC R cfg c h start e).2 ∧ Dfa.Inv R cfg (Dfa.isMatchReverseC R cfg c h start e).2 ∧
+    Dfa.Inv R cfg (Dfa.searchReverseLimitedC R cfg c h start e minStart).2 :=
+  ⟨(Dfa.searchReverseC_eq hC hb hI start e).2, (Dfa.isMatchReverseC_eq hC hb hI start e).2,
+   (Dfa.searchReverseLimitedC_eq hC hb hI start e minStart).2, (Dfa.searchReverseC_eq hC hb hI start e).1,
+   (Dfa.isMatchReverseC_eq hC hb hI start e).1, (Dfa.searchReverseLimitedC_eq hC hb hI start e minStart).1⟩
+
+/-- the reverse search returns the reference: the least accepted start in `[start, end]`, -1 iff there is none -/
+theorem C14_dfa_reverse_eq_reference {R : NFA} {cfg : Dfa.Config} (H : Dfa.RevDfaHyp R cfg) (h : Bytes)
+    {start e : Nat} (hse : start < e) (he : e ≤ h.size) :
+    ∃ o, Dfa.searchReverseU R cfg h start e = Dfa.ofLast o ∧ Dfa.LeastIn (Dfa.RAcc R h e) start e o :=
+  Dfa.searchReverseU_spec H h hse he
+
+/-- the bounded reverse search declines (-2) exactly when `minStart > start` and the automaton is alive after every byte
+    it may read; otherwise it returns the reference -/
+theorem C14_dfa_reverse_limited_eq_reference_or_declines {R : NFA} {cfg : Dfa.Config} (H : Dfa.RevDfaHyp R cfg) (h : Bytes)
+    {start e minStart : Nat} (hse : start < e) (he : e ≤ h.size) :
+    ((start < minStart ∧ ∀ at_, minStart ≤ at_ → at_ < e → Dfa.RAlive R h e at_) →
+        Dfa.searchReverseLimitedU R cfg h start e minStart = .cutOff) ∧
+    (¬ (start < minStart ∧ ∀ at_, minStart ≤ at_ → at_ < e → Dfa.RAlive R h e at_) →
+        ∃ o, Dfa.searchReverseLimitedU R cfg h start e minStart = Dfa.ofLast o ∧ Dfa.LeastIn (Dfa.RAcc R h e) start e o) :=
+  Dfa.reverseWalk_spec H h hse he
+
+/-- the reversed NFA (`nfa.Reverse` / `nfa.ReverseAnchored`) driven by the reverse DFA: the leftmost start of a match of `N`
+    ending at `e` -/
+theorem C14_reversed_nfa_leftmost_start {N : NFA} (H : Rev.RevHyp N) (a : Bool) {rcfg : Dfa.Config}
+    (hbrk : rcfg.breakAtMatch = false) (h : Bytes) {start e : Nat} (hse : start < e) (he : e ≤ h.size) :
+    ∃ o, Dfa.searchReverseU (Rev.reverse N a) rcfg h start e = Dfa.ofLast o ∧
+      Dfa.LeastIn (fun s => Rev.AcceptsA N h s e) start e o :=
+  RevSuffix.reverse_search_leftmost_start H a hbrk h hse he
 
 end Cx.C14
